@@ -31,6 +31,8 @@ env = dict(os.environ, GOFLAGS='-mod=mod', GOPROXY='off', GOSUMDB='off', GOTOOLC
 env['PATH'] = '/opt/veriftools/go1.26.8/bin:' + env['PATH']
 env.pop('GOWORK', None)
 
+if not os.path.exists(V + '/bin/mutgen'):
+    subprocess.run(['go', 'build', '-o', V + '/bin/mutgen', '.'], cwd=V + '/mutsweep', env=env, check=True)
 props = [json.loads(l) for l in open(V + '/properties.jsonl')]
 os.makedirs(V + '/mutsweep/results', exist_ok=True)
 
